@@ -2,3 +2,4 @@ import FormakVerif.Model.Names
 import FormakVerif.Model.Expr
 import FormakVerif.Model.PyModel
 import FormakVerif.Model.Runtime
+import FormakVerif.Model.Ekf
